@@ -338,6 +338,7 @@ fn reg_hits_were_added(p: &mut ProbeReport, r: &mut Rng, rounds: usize) {
                 match op {
                     Op::RCreate(id, l) => { core::create_store(*id, make_lang(l)); core::highlight_with(*id, (&ML.to_string(), &MR.to_string())); added.insert(*id, (l.clone(), vec![])); live_now.push(*id); }
                     Op::RDestroy(id) => { core::destroy_store(*id); added.remove(id); live_now.retain(|x| x != id); }
+                    Op::RClear(id) => { core::using_store(*id, |s| s.clear()); added.get_mut(id).unwrap().1.clear(); }
                     Op::RMarkers(..) => {}     // the sentinels stay configured
                     Op::RLimit(id, n) => core::set_limit(*id, *n),
                     Op::RAdd(id, rid, rating, t) => { if has_sentinel(t) { continue; } core::add_record(*id, *rid, t, *rating); added.get_mut(id).unwrap().1.push((*rid, t.clone())); }
@@ -1277,12 +1278,12 @@ fn p10(p: &mut ProbeReport, r: &mut Rng, budget: usize) {
         }
     }
     // the same statement through the top-level API: every sequence up to a fixed length over {add, limit 1, limit 25,
-    // markers, search "pank", search ""} on one id, each result buffer compared with a stand-alone store on a fresh thread
+    // markers, search "pank", search "", clear} on one id, each result buffer compared with a stand-alone store on a fresh thread
     {
         let id = 905_001usize;
         let alphabet: Vec<Op> = vec![
             Op::RAdd(id, 0, 0, "pink".into()), Op::RAdd(id, 0, 1, "metal punk".into()), Op::RLimit(id, 1), Op::RLimit(id, 25),
-            Op::RMarkers(id, "{".into(), "}".into()), Op::RSearch(id, "pank".into()), Op::RSearch(id, "".into()),
+            Op::RMarkers(id, "{".into(), "}".into()), Op::RSearch(id, "pank".into()), Op::RSearch(id, "".into()), Op::RClear(id),
         ];
         let maxlen = if budget > 20000 { 6 } else { 5 };
         let mut idx: Vec<usize> = vec![];
@@ -2043,6 +2044,7 @@ fn reg_case_against_shadows(p: &mut ProbeReport, case: &Case, tag: &str) -> bool
             match op {
                 Op::RCreate(id, l) => { core::create_store(*id, make_lang(l)); live.push(*id); shadow.insert(*id, (l.clone(), vec![], core::DEFAULT_LIMIT, ("[".to_string(), "]".to_string()), vec![])); }
                 Op::RDestroy(id) => { core::destroy_store(*id); live.retain(|x| x != id); shadow.remove(id); }
+                Op::RClear(id) => { core::using_store(*id, |s| s.clear()); shadow.get_mut(id).unwrap().1.clear(); }
                 Op::RMarkers(id, l, rr) => { core::highlight_with(*id, (l, rr)); shadow.get_mut(id).unwrap().3 = (l.clone(), rr.clone()); }
                 Op::RLimit(id, n) => { core::set_limit(*id, *n); shadow.get_mut(id).unwrap().2 = *n; }
                 Op::RAdd(id, rid, rating, t) => { core::add_record(*id, *rid, t, *rating); shadow.get_mut(id).unwrap().1.push((*rid, t.clone(), *rating)); }
